@@ -39,15 +39,18 @@ def import_mido():
 # ---------------------------------------------------------------- scratch
 
 _scratch_dirs = []
+_scratch_lock = __import__('threading').Lock()
+_scratch_n = __import__('itertools').count()
 
 
 def scratch(tag='w'):
     os.makedirs(WORK_ROOT, exist_ok=True)
-    d = os.path.join(WORK_ROOT, '%s-%d-%d' % (tag, os.getpid(), len(_scratch_dirs)))
-    if os.path.exists(d):
-        shutil.rmtree(d)
-    os.makedirs(d)
-    _scratch_dirs.append((os.getpid(), d))
+    with _scratch_lock:
+        d = os.path.join(WORK_ROOT, '%s-%d-%d' % (tag, os.getpid(), next(_scratch_n)))
+        if os.path.exists(d):
+            shutil.rmtree(d, ignore_errors=True)
+        os.makedirs(d, exist_ok=True)
+        _scratch_dirs.append((os.getpid(), d))
     return d
 
 
